@@ -46,6 +46,7 @@ structure SFacets where
   enumeration : List String := []
   asChild : Bool := true        -- facet written as child element `<xs:f value=…/>` or as attribute
   plus : Bool := false          -- non-negative facet values are written with an explicit plus sign (`+5`)
+  pad : Bool := false           -- numeric facet values are written with surrounding white space (` 5 `; whitespace-collapsed by XSD)
 deriving Repr, Inhabited
 
 structure ComplexDef where
@@ -187,8 +188,9 @@ def renderComplexBody (f : SchemaFile) (ind : String) (d : ComplexDef) : String 
   | none => renderContent f ind d
 
 def renderFacets (fc : SFacets) : String × String :=
-  let si (i : Int) : String := if fc.plus && i ≥ 0 then "+" ++ toString i else toString i
-  let sn (n : Nat) : String := if fc.plus then "+" ++ toString n else toString n
+  let wrap (t : String) : String := if fc.pad then " " ++ t ++ " " else t
+  let si (i : Int) : String := wrap (if fc.plus && i ≥ 0 then "+" ++ toString i else toString i)
+  let sn (n : Nat) : String := wrap (if fc.plus then "+" ++ toString n else toString n)
   let nums : List (String × Option String) :=
     [("minInclusive", fc.minInclusive.map si), ("maxInclusive", fc.maxInclusive.map si),
      ("minExclusive", fc.minExclusive.map si), ("maxExclusive", fc.maxExclusive.map si),
